@@ -63,6 +63,13 @@ pub struct Config {
     /// ServerBuilder::system_exit(): the server also waits 300 ms after a stop before resolving
     #[serde(default)]
     pub system_exit: bool,
+    /// readiness scripts may also fail (C07); otherwise they only flip between Ok and Pending
+    #[serde(default = "yes")]
+    pub script_errors: bool,
+}
+
+fn yes() -> bool {
+    true
 }
 
 fn two() -> u32 {
@@ -570,7 +577,7 @@ fn enabled_actions(sim: &Sim) -> Vec<(Action, u32)> {
             if f.flag.fired() {
                 en.push((Action::PollStopFuture(i), 2));
             }
-            if f.resolved_ms.is_none() && !f.dropped && i % 2 == 1 {
+            if f.resolved_ms.is_none() && !f.dropped {
                 en.push((Action::DropStopFuture(i), 1));
             }
         }
@@ -594,6 +601,11 @@ fn enabled_actions(sim: &Sim) -> Vec<(Action, u32)> {
                 en.push((Action::Signal(libc::SIGQUIT), 1));
             }
         }
+    }
+    if cfg.stop && !server_running && sim.stop_futs.len() < 4 && sim.o.late_stops < 2 {
+        // the server has ended; a stop issued now has nobody to answer it and must still resolve
+        en.push((Action::Stop(true), 1));
+        en.push((Action::Stop(false), 1));
     }
     if cfg.advance {
         for ms in [1u64, 100, 499, 500, 510, 1000] {
@@ -624,6 +636,9 @@ fn enabled_actions(sim: &Sim) -> Vec<(Action, u32)> {
                 continue;
             }
             for (code, r) in [(0u8, Ready::Ok), (1, Ready::Pending), (2, Ready::Err)] {
+                if r == Ready::Err && !cfg.script_errors {
+                    continue;
+                }
                 if inst.ready != r && !(r == Ready::Err && sim.o.ready_errs >= 3) {
                     en.push((Action::ReadyFlip(i, code), if r == Ready::Ok { 4 } else { 2 }));
                 }
@@ -1025,6 +1040,10 @@ async fn exec_action(sim: &mut Sim, a: Action) {
                 ev!(ctx, "cmd stop graceful={graceful} at {now}ms");
                 ctx.bump(if graceful { "cmd.stop_graceful" } else { "cmd.stop_forced" });
             });
+            if sim.server.is_none() {
+                sim.o.late_stops += 1;
+                sh.ctx(|ctx| ctx.bump("probe.stop_after_server_end"));
+            }
             oracles::on_stop_issued(sim, graceful, false);
         }
         Action::DropStopFuture(i) => {
@@ -1057,6 +1076,9 @@ async fn exec_action(sim: &mut Sim, a: Action) {
         }
         Action::KillWorker(s, panic_mode) => {
             sim.o.kills += 1;
+            if sh.first_fault_dispatch.get() == usize::MAX {
+                sh.first_fault_dispatch.set(sh.dispatch_log.borrow().len());
+            }
             if panic_mode {
                 sh.panic_next_call.set(Some(s));
                 sh.ctx(|ctx| ev!(ctx, "next call on slot {s} will panic"));
